@@ -782,7 +782,12 @@ def _execute(universe, op):
             else:
                 seq = [resolve(universe, a) for a in arg]
                 form = op[3] if len(op) > 3 else "list"
-                if form == "tuple":
+                if form == "str":
+                    # the children value itself is a text: '' is an empty sequence, 'ab' a sequence of two non-nodes
+                    value = "ab"[: len(seq)]
+                elif form == "bytes":
+                    value = b"xy"[: len(seq)]
+                elif form == "tuple":
                     value = tuple(seq)
                 elif form == "gen":
                     value = (x for x in seq)
@@ -1118,6 +1123,10 @@ def calls_for(n, family="NM", invalid=False, maxlen=None):
         if invalid:
             yield ["children", node, {"noniter": "int"}]
             yield ["children", node, {"noniter": "none"}]
+            yield ["children", node, [], "str"]
+            yield ["children", node, [], "bytes"]
+            yield ["children", node, [{"bad": "str"}, {"bad": "str"}], "str"]
+            yield ["children", node, [{"bad": "int"}], "bytes"]
             yield ["children", node, [{"bad": "str"}]]
             yield ["children", node, [{"bad": "zero"}]]
             if n > 1:
